@@ -1101,7 +1101,7 @@ def run(ctx):
                         sum(r.get("t_import", 0) for r in reports), sum(r.get("t_warm", 0) for r in reports),
                         sum(x.get("t", 0) for r in reports for x in r.get("runs", []))))
     ctx.count("get_iter", stats["runs"], len(stats["nontrivial"]), stats["dist"])
-    for rep in reports[:3]:
+    for rep in reports[-6:]:
         if rep.get("runs"):
             r = rep["runs"][-1]
             ctx.sample({"nodes": [(n["name"], n["kind"], n["deps"]) for n in rep["graph"]["nodes"]],
